@@ -1067,7 +1067,7 @@ def describe(prop):
     common_real = ["pypose.optim.LevenbergMarquardt.step", "pypose.optim.GaussNewton.step", "RobustModel (forward, "
                    "residuals, flatten_row_jacobian, normalize_RWJ, loss)", "pypose.optim.functional.modjac",
                    "strategy.Constant / Adaptive / TrustRegion (inside the recording proxy)", "corrector.FastTriggs / "
-                   "Triggs", "kernels", "solver.PINV / LSTSQ / Cholesky (inside the fault proxy)",
+                   "Triggs", "kernels", "solver.PINV / LSTSQ / Cholesky / CG (inside the fault proxy)",
                    "_Optimizer.update_parameter, LieTensor add_ / Exp / Log / Inv / @ / Act and their backward passes"]
     stub = ["SolverProxy: decides honest / raise / negate / overshoot / zero / noise / scripted jump per solve and "
             "records (A, b, parameter snapshot)", "StrategyProxy: recording shell around the real strategy",
@@ -1098,4 +1098,8 @@ def describe(prop):
             "assumptions": ["reference Jacobian = Richardson central finite differences of the real forward ops in tangent "
                             "coordinates (left perturbation through an independent matrix exponential); abstains when its "
                             "own error estimate exceeds 2e-8 relative; comparison tolerance 2e-7 relative",
-                            "the configured corrector object is trusted (C09 is not claimed)"]}
+                            "FastTriggs (also the automatic corrector) is re-computed from closed-form kernel derivatives; "
+                            "the Triggs class is used as a trusted component (C09 is not claimed)",
+                            "CG steps are judged by CG's documented stopping rule (||A x - b|| < 1e-5 ||b||) where cond(A) <= 1e4",
+                            "starts: random / exactly zero residual / one observation explained exactly / 1e-6..1e-8 from "
+                            "the solution"]}
